@@ -147,6 +147,9 @@ type ctx2 struct {
 	base   int
 	latest crhp2.ContractRevision
 	donor  types.FileContractRevision
+	// validOnly: the proposal's missed outputs are not taken from the donor (a clearing revision
+	// sets missed := valid), only the valid payouts decide
+	validOnly bool
 }
 
 // prep2 reads ses= / sb= of the op.  Must be called before the line is composed.
@@ -175,6 +178,9 @@ func (x ctx2) eff(pay, burn types.Currency) (epay, eburn types.Currency, neg boo
 	l, d := x.latest.Revision, x.donor
 	pv := new(big.Int).Sub(l.ValidRenterPayout().Big(), new(big.Int).Sub(d.ValidRenterPayout().Big(), pay.Big()))
 	bv := new(big.Int).Sub(l.MissedHostPayout().Big(), new(big.Int).Sub(d.MissedHostPayout().Big(), burn.Big()))
+	if x.validOnly {
+		bv = new(big.Int)
+	}
 	if pv.Sign() < 0 || bv.Sign() < 0 {
 		return types.ZeroCurrency, types.ZeroCurrency, true
 	}
@@ -1227,6 +1233,7 @@ func (w *world) doRenew2(p vhlib.ParsedLine) {
 	settings := w.settings2()
 	cm, wm := w.node.Chain, w.node.Wallet
 	x := w.prep2(p, c)
+	x.validOnly = true
 	cur0 := x.latest
 	rp, col := cur(p.Args["rp"]), cur(p.Args["col"])
 	endHeight := cur0.Revision.WindowStart + p.U64("ext")
